@@ -141,6 +141,29 @@ def handle (st : St) (args : List String) (impl : String) : St × Verdict :=
       (st, cmpModel (viewCheckOutput vd (.ofU32 vc)
         (fun id' sw' => sameCommit amount id sw id' sw') amount msg).show impl)
     | _, _, _, _, _, _ => (st, .unknown)
+  -- view keys made from a privately derived child (any depth, hardened words): `vk` = its path words
+  | ["vkcheck", vk, m, h, sw, amount] =>
+    match parseNatList vk, parseHex m, ident? h, Switch.parse sw, nat? amount with
+    | some vk, some msg, some id, some sw, some amount =>
+      match fcommit amount id sw with
+      | .ok c => (st, cmpModel (viewCheckAt freeKD (vk.map ChildNumber.ofU32) c amount msg).show impl)
+      | _ => (st, .unknown)
+    | _, _, _, _, _ => (st, .unknown)
+  | ["vkrewind", vk, h, sw, amount] =>
+    match parseNatList vk, ident? h, Switch.parse sw, nat? amount with
+    | some vk, some id, some sw, some amount =>
+      match fcommit amount id sw with
+      -- `Crypto.rewind_same`: the view key sees the embedded (amount, message) and checks it
+      | .ok c => (st, cmpSpec (showRewind
+          (viewCheckAt freeKD (vk.map ChildNumber.ofU32) c amount (proofMessage id sw)) amount) impl)
+      | _ => (st, .unknown)
+    | _, _, _, _ => (st, .unknown)
+  -- determinism across instance history: the model's derive is a pure function of (seed, id, sw,
+  -- amount) (`derive_history_independent`), so whatever was asked before the answer is the same
+  | ["hist", _kind, _order, h, sw, amount] =>
+    match ident? h, Switch.parse sw, nat? amount with
+    | some _, some _, some _ => (st, cmpSpec "same" impl)
+    | _, _, _ => (st, .unknown)
   -- arithmetic
   | ["bsum", p, n] => match scalars? p, scalars? n with
     | some p, some n => (st, cmpSpec (secpBlindSum p n).show impl)
